@@ -187,6 +187,32 @@ def run(tier, replay):
             rr = f.result()
             rr["phase"] = "dfs-depth-%d shard %d/%d" % (depth, i, nsh)
             results.append(rr)
+    # (b2) refused initialisations of every kind followed by every kind of repair: what the refused attempt had already copied into
+    #      the engine's parameter block (mode, window, level) must not survive into the repaired initialisation
+    D_ = [("SetCategory", "dbd"), ("SetIsotope", "Mo100")]
+    fails = []
+    for r_ in ("ok", "lo", "hi", "none"):
+        fails.append(D_ + [("SetLevel", "9"), ("SetMode", "4"), ("SetRange", r_), ("Initialize", "-")])      # refused by the engine: level
+        fails.append([("SetCategory", "dbd"), ("SetIsotope", "junk"), ("SetLevel", "0"), ("SetMode", "4"), ("SetRange", r_), ("Initialize", "-")])
+        fails.append(D_ + [("SetLevel", "0"), ("SetMode", "1"), ("SetRange", r_), ("Initialize", "-")] if r_ != "none" else
+                     D_ + [("SetLevel", "1"), ("SetMode", "4"), ("SetRange", "ok"), ("Initialize", "-")])                    # window on mode 1 / spin rule
+    fails.append(D_ + [("SetLevel", "0"), ("SetMode", "21"), ("Initialize", "-")])
+    fails.append(D_ + [("SetLevel", "0"), ("SetMode", "20"), ("Initialize", "-")])
+    repairs = [[("SetIsotope", "Mo100"), ("SetLevel", "0"), ("SetMode", "4"), ("SetRange", r_), ("Initialize", "-"), ("Shoot", "-"), ("Shoot", "-")]
+               for r_ in ("none", "lo", "hi", "ok")]
+    repairs += [[("SetIsotope", "Mo100"), ("SetLevel", "0"), ("SetMode", "1"), ("SetRange", "none"), ("Initialize", "-"), ("Shoot", "-")],
+                [("SetIsotope", "Mo100"), ("SetLevel", "1"), ("SetMode", "7"), ("SetRange", "none"), ("Initialize", "-"), ("Shoot", "-")],
+                [("SetCategory", "bkg"), ("SetIsotope", "Co60"), ("Initialize", "-"), ("Shoot", "-")]]
+    seqs = [f_ + r_ for f_ in fails for r_ in repairs] + [f_ + f2_ + r_ for f_ in fails[:3] for f2_ in fails[3:6] for r_ in repairs[:3]]
+    sfile = dump + ".repair.seq"
+    with open(sfile, "w") as f:
+        for sq in seqs:
+            if all(l_ in amap for l_ in sq):
+                f.write(" ".join(str(amap[l_]) for l_ in sq) + "\n")
+    rr = run_harness(exes["plain"], ["--graph", gpath, "--seqfile", sfile], vlib.harness_env("plain"), 600)
+    rr["phase"] = "repair-after-refusal"
+    results.append(rr)
+    ck.set("repair_after_refusal_sequences", len(seqs))
     # (c) seeded long walks (ASan build)
     nw = 20000 if thorough else 2000
     res = run_harness(exes["asan"], ["--graph", gpath, "--walks", str(nw), "--walklen", "14", "--seed", str(ck.seed),
